@@ -148,6 +148,11 @@ theorem ackPacket_frame (o : Outbound) (id : Nat) (k : AckKind) :
     simp only [Bool.not_eq_true] at h
     simp [Outbound.keys, removeFirst_none h]
 
+@[simp] theorem compact_nextRser (o : Outbound) : (o.compact).nextRser = o.nextRser := rfl
+
+theorem ackPacket_nextRser (o : Outbound) (id : Nat) (k : AckKind) : (o.ackPacket id k).1.nextRser = o.nextRser := by
+  rw [ackPacket_eq]; split <;> rfl
+
 theorem ackPacket_not_found {o : Outbound} {id : Nat} {k : AckKind} (h : o.retained.any (ackPred o id k) = false) :
     o.ackPacket id k = (o, false) := by
   rw [ackPacket_eq, h]; rfl
@@ -200,9 +205,10 @@ theorem queueControl_eq (o : Outbound) (a : ControlAction) :
   · rw [if_pos h, if_neg (by omega)]
   · rw [if_neg h, if_pos (by omega)]
 
-theorem queueRelease_eq (o : Outbound) (id rc : Nat) :
-    o.queueRelease id rc = if o.release.length < MAX_PENDING_RELEASE then
-      some { o with release := o.release ++ [{ id := id, rc := rc, state := .write 0 }] } else none := by
+theorem queueRelease_eq (o : Outbound) (id rc ps : Nat) :
+    o.queueRelease id rc ps = if o.release.length < MAX_PENDING_RELEASE then
+      some { o with release := o.release ++ [{ id := id, rc := rc, state := .write 0, rser := o.nextRser, pser := ps }],
+                    nextRser := o.nextRser + 1 } else none := by
   unfold queueRelease
   by_cases h : o.release.length ≥ MAX_PENDING_RELEASE
   · rw [if_pos h, if_neg (by omega)]
@@ -253,14 +259,23 @@ def qos2Ids (l : List Nat) (id : Nat) : List Nat × Nat :=
   if l.contains id then (l, RC_Success)
   else if l.length < MAX_INBOUND_QOS2 then (l ++ [id], RC_Success) else (l, RC_ReceiveMaxExceeded)
 
+/-- The outcome of owing the PUBREC for an inbound QoS 2 PUBLISH: as `ackOutcome`, and the list of
+inbound QoS 2 identifiers becomes `ids` only if the PUBREC was queued (repair of F24). -/
+def ackOutcome2 (d : SessionData) (r : Runtime) (a : ControlAction) (deliver : Bool) (ids : List Nat) :
+    SessionData × Runtime × Except Err Bool :=
+  if r.packetTooLarge 5 then (d, r, .error .packetTooLarge)
+  else if d.outbound.control.length < MAX_PENDING_CONTROL then
+    ({ d.withControl a with pendingServerIds := ids }, r, .ok deliver)
+  else (d, r, .error .inflightExhausted)
+
 theorem handlePacket_publish2 (d : SessionData) (r : Runtime) (t : Bytes) (id : Nat) (pr pl : Bytes)
     (rt dup : Bool) (qos : Nat) (hid : id ≠ 0) (hq0 : qos ≠ 0) (hq1 : qos ≠ 1) :
     handlePacket d r (.publish t (some id) pr pl rt qos dup) =
-      ackOutcome { d with pendingServerIds := (qos2Ids d.pendingServerIds id).1 } r
-        { typ := MT_PubRec, id := id, rc := (qos2Ids d.pendingServerIds id).2 }
-        (!d.pendingServerIds.contains id && decide (d.pendingServerIds.length < MAX_INBOUND_QOS2)) := by
+      ackOutcome2 d r { typ := MT_PubRec, id := id, rc := (qos2Ids d.pendingServerIds id).2 }
+        (!d.pendingServerIds.contains id && decide (d.pendingServerIds.length < MAX_INBOUND_QOS2))
+        (qos2Ids d.pendingServerIds id).1 := by
   simp only [handlePacket, hq0, hq1, if_false, hid]
-  unfold ackOutcome qos2Ids
+  unfold ackOutcome2 qos2Ids
   by_cases hc : d.pendingServerIds.contains id = true
   · simp only [hc, Bool.not_true, Bool.false_eq_true, if_false, if_true, Bool.true_or, Bool.false_and]
     rw [checkSize_control _ _ (Or.inr (Or.inl rfl)), queueControl_eq]
@@ -270,7 +285,7 @@ theorem handlePacket_publish2 (d : SessionData) (r : Runtime) (t : Bytes) (id : 
       · simp [h1, h2, SessionData.withControl]
       · simp [h1, h2]
   · simp only [Bool.not_eq_true] at hc
-    simp only [hc, Bool.not_false, if_true, Bool.false_eq_true, if_false, Bool.false_or, Bool.true_and]
+    simp only [hc, Bool.not_false, Bool.false_eq_true, if_false, Bool.false_or, Bool.true_and]
     by_cases hl : d.pendingServerIds.length < MAX_INBOUND_QOS2
     · simp only [hl, if_true, decide_true]
       rw [checkSize_control _ _ (Or.inr (Or.inl rfl)), queueControl_eq]
@@ -354,17 +369,20 @@ theorem handlePacket_pubAck (d : SessionData) (r : Runtime) (id : Nat) (rs : Rea
   simp only [handlePacket, SessionData.awaits, ← ackPacket_found_iff, SessionData.acked]
   cases (d.outbound.ackPacket id .pubAck).2 <;> simp <;> split <;> simp_all
 
-/-- The state after a release entry for `id` was appended. -/
-def SessionData.withRelease (d : SessionData) (id : Nat) : SessionData :=
+/-- The state after a release entry for `id` was appended (`ps`, the entry's `rser` and the counter
+`nextRser` are ghost). -/
+def SessionData.withRelease (d : SessionData) (id : Nat) (ps : Nat := 0) : SessionData :=
   { d with outbound := { d.outbound with
-      release := d.outbound.release ++ [{ id := id, rc := RC_Success, state := .write 0 }] } }
+      release := d.outbound.release ++ [{ id := id, rc := RC_Success, state := .write 0, rser := d.outbound.nextRser, pser := ps }],
+      nextRser := d.outbound.nextRser + 1 } }
 
 theorem handlePacket_pubRec (d : SessionData) (r : Runtime) (id : Nat) (rs : ReasonIn) :
     handlePacket d r (.pubRec id rs) =
       if d.awaits id .pubRec then
         if !reasonSuccess rs.rc then (d.acked id .pubRec, quotaInc r, .error (.peerRejected rs.rc))
         else if r.packetTooLarge 5 then (d.acked id .pubRec, r, .error .packetTooLarge)
-        else if d.outbound.release.length < MAX_PENDING_RELEASE then ((d.acked id .pubRec).withRelease id, r, .ok false)
+        else if d.outbound.release.length < MAX_PENDING_RELEASE then
+          ((d.acked id .pubRec).withRelease id (d.outbound.ackedSer id .pubRec), r, .ok false)
         else (d.acked id .pubRec, r, .error .inflightExhausted)
       else if d.outbound.hasPendingRelease id && !reasonSuccess rs.rc then (d, r, .error (.peerRejected rs.rc))
       else (d, r, .ok false) := by
@@ -379,7 +397,7 @@ theorem handlePacket_pubRec (d : SessionData) (r : Runtime) (id : Nat) (rs : Rea
       by_cases h3 : r.packetTooLarge 5 = true
       · simp [h3]
       · by_cases h4 : d.outbound.release.length < MAX_PENDING_RELEASE
-        · simp [h3, h4, SessionData.withRelease, (ackPacket_frame d.outbound id .pubRec).2.1]
+        · simp [h3, h4, SessionData.withRelease, (ackPacket_frame d.outbound id .pubRec).2.1, ackPacket_nextRser]
         · simp [h3, h4]
     · simp [h2]
 
@@ -431,6 +449,23 @@ theorem ackOutcome_frame (d : SessionData) (r : Runtime) (a : ControlAction) (dl
     · exact ⟨Or.inr ⟨a, rfl⟩, rfl, rfl, fun _ h => by simp at h⟩
     · exact ⟨Or.inl rfl, rfl, rfl, fun _ h => by simp at h⟩
 
+theorem ackOutcome2_frame (d : SessionData) (r : Runtime) (a : ControlAction) (dl : Bool) (ids : List Nat) :
+    OnlyControl d.outbound (ackOutcome2 d r a dl ids).1.outbound ∧
+    (ackOutcome2 d r a dl ids).1.pendingServerIds =
+      (if r.packetTooLarge 5 = false ∧ d.outbound.control.length < MAX_PENDING_CONTROL then ids else d.pendingServerIds) ∧
+    (ackOutcome2 d r a dl ids).1.generation = d.generation ∧
+    ∀ rc, (ackOutcome2 d r a dl ids).2.2 ≠ .error (.peerRejected rc) := by
+  unfold ackOutcome2
+  by_cases h1 : r.packetTooLarge 5 = true
+  · simp only [h1, if_true]
+    exact ⟨Or.inl rfl, by simp, (by first | rfl | trivial), fun _ h => by simp at h⟩
+  · simp only [h1, Bool.false_eq_true, if_false]
+    by_cases h2 : d.outbound.control.length < MAX_PENDING_CONTROL
+    · simp only [h2, if_true]
+      exact ⟨Or.inr ⟨a, rfl⟩, by simp [h1], (by first | rfl | trivial), fun _ h => by simp at h⟩
+    · simp only [h2, if_false]
+      exact ⟨Or.inl rfl, by simp [h2], (by first | rfl | trivial), fun _ h => by simp at h⟩
+
 /-- Packets that acknowledge nothing of ours and are not PUBCOMP leave the retained and release
 queues alone: at most one acknowledgement is appended to the control queue. -/
 theorem handlePacket_onlyControl (d : SessionData) (r : Runtime) (p : Recv) (h : p.ackOf = none)
@@ -471,9 +506,10 @@ theorem handlePacket_onlyControl (d : SessionData) (r : Runtime) (p : Recv) (h :
             have := ackOutcome_frame d r { typ := MT_PubAck, id := id, rc := qos1Rc d.pendingServerIds id } true
             exact ⟨this.1, this.2.2.1, this.2.2.2⟩
           · rw [handlePacket_publish2 d r topic id props payload retain dup qos hid hq0 hq1]
-            have := ackOutcome_frame { d with pendingServerIds := (qos2Ids d.pendingServerIds id).1 } r
+            have := ackOutcome2_frame d r
               { typ := MT_PubRec, id := id, rc := (qos2Ids d.pendingServerIds id).2 }
               (!d.pendingServerIds.contains id && decide (d.pendingServerIds.length < MAX_INBOUND_QOS2))
+              (qos2Ids d.pendingServerIds id).1
             exact ⟨this.1, this.2.2.1, this.2.2.2⟩
 
 theorem acked_frame (d : SessionData) (id : Nat) (k : AckKind) :
@@ -547,7 +583,8 @@ theorem handlePacket_release (d : SessionData) (r : Runtime) (p : Recv) :
       | .pubRec id rs =>
         if d.awaits id .pubRec && reasonSuccess rs.rc && !r.packetTooLarge 5 &&
             decide (d.outbound.release.length < MAX_PENDING_RELEASE)
-        then d.outbound.release ++ [{ id := id, rc := RC_Success, state := .write 0 }] else d.outbound.release
+        then d.outbound.release ++ [{ id := id, rc := RC_Success, state := .write 0, rser := d.outbound.nextRser,
+                                      pser := d.outbound.ackedSer id .pubRec }] else d.outbound.release
       | .pubComp id _ => removeFirst (fun e => e.id == id) d.outbound.release
       | _ => d.outbound.release := by
   by_cases hc : ∃ id rs, p = .pubComp id rs
@@ -589,7 +626,8 @@ theorem handlePacket_release (d : SessionData) (r : Runtime) (p : Recv) :
           · by_cases h3 : r.packetTooLarge 5 = true
             · simp [h1, h2, h3, hr]
             · by_cases h4 : d.outbound.release.length < MAX_PENDING_RELEASE
-              · simp [h1, h2, h3, h4, SessionData.withRelease, hr]
+              · have hn : (d.acked i .pubRec).outbound.nextRser = d.outbound.nextRser := ackPacket_nextRser _ _ _
+                simp [h1, h2, h3, h4, SessionData.withRelease, hr, hn]
               · simp [h1, h2, h3, h4, hr]
           · simp [h1, h2, hr]
         · simp only [h1, Bool.false_eq_true, if_false, Bool.false_and]
@@ -612,13 +650,16 @@ theorem handlePacket_generation (d : SessionData) (r : Runtime) (p : Recv) :
                        all_goals rfl
       | _ => simp [Recv.ackOf] at hp
 
-/-- The list of inbound QoS 2 identifiers changes only on an inbound QoS 2 PUBLISH (identifier
-recorded) and on an inbound PUBREL (identifier removed). -/
+/-- The list of inbound QoS 2 identifiers changes only on an inbound QoS 2 PUBLISH whose PUBREC is
+queued (identifier recorded) and on an inbound PUBREL (identifier removed). -/
 theorem handlePacket_pendingIds (d : SessionData) (r : Runtime) (p : Recv) :
     (handlePacket d r p).1.pendingServerIds =
       match p with
       | .publish _ (some id) _ _ _ qos _ =>
-        if qos = 0 ∨ qos = 1 ∨ id = 0 then d.pendingServerIds else (qos2Ids d.pendingServerIds id).1
+        if qos = 0 ∨ qos = 1 ∨ id = 0 then d.pendingServerIds
+        else if r.packetTooLarge 5 = false ∧ d.outbound.control.length < MAX_PENDING_CONTROL then
+          (qos2Ids d.pendingServerIds id).1
+        else d.pendingServerIds
       | .pubRel id _ =>
         if id ≠ 0 ∧ d.pendingServerIds.contains id then handlePacket.swapRemove d.pendingServerIds id
         else d.pendingServerIds
@@ -662,7 +703,7 @@ theorem handlePacket_pendingIds (d : SessionData) (r : Runtime) (p : Recv) :
             exact (ackOutcome_frame _ r _ true).2.1
           · rw [handlePacket_publish2 d r topic id props payload retain dup qos hid hq0 hq1]
             simp only [hq0, hq1, hid, or_self, if_false]
-            exact (ackOutcome_frame _ r _ _).2.1
+            exact (ackOutcome2_frame _ r _ _ _).2.1
 
 /-! ### Executions as sequences of primitive steps -/
 
@@ -1717,7 +1758,9 @@ theorem handlePacket_PendingInv (d : SessionData) (r : Runtime) (p : Recv) (h : 
   split
   · split
     · exact h
-    · exact qos2Ids_inv _ _ h
+    · split
+      · exact qos2Ids_inv _ _ h
+      · exact h
   · split
     · rename_i hc; exact swapRemove_inv _ _ hc.2 h
     · exact h
@@ -1859,8 +1902,8 @@ theorem acked_status_complete {d : SessionData} (h : d.IdInv) {op : Op} {k : Ack
   unfold SessionData.inFlight
   cases op.kind <;> simp [h1, h2]
 
-theorem withRelease_status_pending (d : SessionData) (op : Op) (hk : op.kind = .pub2) (hg : op.generation = d.generation) :
-    (d.withRelease op.id).status op = .pending := by
+theorem withRelease_status_pending (d : SessionData) (op : Op) (hk : op.kind = .pub2) (hg : op.generation = d.generation)
+    (ps : Nat := 0) : (d.withRelease op.id ps).status op = .pending := by
   rw [status_pending_iff]
   refine ⟨hg, ?_⟩
   unfold SessionData.inFlight
